@@ -43,7 +43,7 @@ CHECKS['C03'] = dict(
    note=COMMON_NOTE, ref='DESIGN.md §5 C03')
 CHECKS['C04'] = dict(
    technique='Coq proof with Coquelicot (antiderivative property, zero constant of integration, analytical_integral = RInt, additivity and antisymmetry) + bit-for-bit differential correspondence + exact oracle',
-   text='18 theorems: integral coefficient 0 is 0 and every multivariate integral term contains the variable, simple_derivative (simple_integral p) = p, is_derive of the integral equals the polynomial for both types (no exponent -1), well-formedness closure, analytical_integral p a b = RInt (eval p) a b for both types, additivity over adjacent intervals and sign change under swapped bounds (also on the returned values)',
+   text='19 theorems: c04_definite_float_error (binary64 instance, Flocq: the computed F(b) - F(a) of the univariate type is within ((1+eps)^(2n+4) - 1) * (sum|c_k||b|^(k+1)/(k+1) + sum|c_k||a|^(k+1)/(k+1)) of the exact value, for finite normal-range intermediates); in exact arithmetic: integral coefficient 0 is 0 and every multivariate integral term contains the variable, simple_derivative (simple_integral p) = p, is_derive of the integral equals the polynomial for both types (no exponent -1), well-formedness closure, analytical_integral p a b = RInt (eval p) a b for both types, additivity over adjacent intervals and sign change under swapped bounds (also on the returned values)',
    note=COMMON_NOTE, ref='DESIGN.md §5 C04')
 CHECKS['C11'] = dict(
    technique='Coq proof over any commutative ring (dot = algebraic product for every conforming shape incl. 1x1 and empty dimensions, scalar cases, shape errors, operator forms, associativity/transpose/identity laws) AND a floating-point rounding bound for every entry of the binary64 product (Flocq) + exhaustive shape-pair correspondence on i64 (exact) and f64 (bit for bit)',
@@ -60,8 +60,8 @@ CHECKS['C13'] = dict(
 
 CHECKS['C08'] = dict(
    technique='Coq proof (Gaussian elimination with scaled partial pivoting on functional matrices: any returned vector solves A x = b; every matrix with a non-trivial left null vector is refused for every right-hand side; shape errors, no panic; triangular substitutions) + bit-for-bit correspondence on all container types + exact-rational oracle',
-   text='8 theorems in exact arithmetic for every n, A, b, tol>0: c08_nonsingular_accepted(_r) (a non-singular matrix is accepted for every sufficiently small tolerance and every right-hand side; with c08_singular_refused: for small tolerances a solution is returned exactly when A is non-singular), c08_solves (via the effective-system invariant of the in-place elimination that leaves stale sub-diagonal entries), c08_lists (at the extracted list boundary), c08_singular_refused (no determinants: the flag is independent of b), c08_shape (non-square / length mismatch / empty are errors, never a panic), c08_substitution(_triangular); float instance agrees bit for bit with the Rust code on exhaustive 2x2, sampled 3x3, random/row-scaled/rank-deficient systems up to 10x10 across Vec<Vec<f64>>, &Vec<Vec<i32>>, &Arr2D<f64>, &Arr2D<i32>',
-   note=COMMON_NOTE + '; componentwise backward error and "well-conditioned systems are never refused" are measured by the oracle', ref='DESIGN.md §5 C08')
+   text='11 theorems: for the binary64 instance (Flocq) the componentwise BACKWARD error of the exported substitution routines: c08_forward_substitution_float_error / c08_back_substitution_float_error (residual of every row <= ((1+eps)^(n+1) - 1) * sum |T_ij||x_j| for finite, normal-range intermediate values), c08_okdiv_by_leb; in exact arithmetic for every n, A, b, tol>0: c08_nonsingular_accepted(_r) (a non-singular matrix is accepted for every sufficiently small tolerance and every right-hand side; with c08_singular_refused: for small tolerances a solution is returned exactly when A is non-singular), c08_solves (via the effective-system invariant of the in-place elimination that leaves stale sub-diagonal entries), c08_lists (at the extracted list boundary), c08_singular_refused (no determinants: the flag is independent of b), c08_shape (non-square / length mismatch / empty are errors, never a panic), c08_substitution(_triangular); float instance agrees bit for bit with the Rust code on exhaustive 2x2, sampled 3x3, random/row-scaled/rank-deficient systems up to 10x10 across Vec<Vec<f64>>, &Vec<Vec<i32>>, &Arr2D<f64>, &Arr2D<i32>',
+   note=COMMON_NOTE + '; the backward error of the elimination itself and the floating-point version of "well-conditioned systems are never refused" are measured by the oracle; float-level theorems use FloatAxioms and list the PrimFloat/PrimInt63 primitives; Flocq', ref='DESIGN.md §5 C08')
 CHECKS['C15'] = dict(
    technique='Coq proof (normal equations of the closed-form line and of the polynomial fit via c08_solves, optimality identity SSE(c\')=SSE(c)+sum(p_c-p_c\')^2, statistics formulas, gradient-descent error recurrence) + bit-for-bit correspondence + exact oracle scaled by the moment-matrix condition',
    text='13 theorems, none partial: c15_gd_contraction (Euclidean error to the optimum contracts by rho per step for any rho dominating the eigenvalues of I - alpha H), c15_gd_stable_step, c15_gd_converges; c15_ls_normal, c15_poly_normal, c15_poly_outcomes, c15_optimal (no other coefficients give a smaller sum of squares), c15_order1_is_line, c15_order_monotone, c15_stats (r2, std_err, predict are the textbook functions of the returned coefficients for all three regressors), c15_gd_iterates/recurrence (e\' = (I - alpha H) e with the normal-equation solution as fixed point); pivot tolerance re-read from polynomial.rs into the model on every run',
